@@ -251,3 +251,16 @@ Fixpoint model_trace (st : db) (ops : list op) : list (res * (N * Z * Z) * iobs)
   end.
 Definition model_dump (c : case_t) : list (res * (N * Z * Z) * iobs) :=
   let '((nominal, cap), tr) := c in model_trace (init nominal cap) (map fst tr).
+
+(* ---- function-level differential test of Common/Telem.v against x/go/telem ---- *)
+(* ((tr.Start, tr.End, rng.Start, rng.End),
+    (OverlapsWith, ContainsRange, BoundBy, ContainsStamp rng.Start, Valid, MakeValid)) *)
+Definition telem_case : Type := (Z * Z * Z * Z) * (bool * bool * (Z * Z) * bool * bool * (Z * Z)).
+Definition telem_model (q : Z * Z * Z * Z) : bool * bool * (Z * Z) * bool * bool * (Z * Z) :=
+  let '(a, b, c, d) := q in
+  let tr := mkTR a b in let rng := mkTR c d in
+  let bb := bound_by tr rng in let mv := tr_make_valid tr in
+  (overlaps_with tr rng, contains_range tr rng, (tr_start bb, tr_end bb),
+   contains_stamp tr c, tr_valid tr, (tr_start mv, tr_end mv)).
+Definition telem_mismatch (c : telem_case) : bool := negb (bool_decide (telem_model (fst c) = snd c)).
+Definition telem_mismatches (cs : list telem_case) : list nat := find_idx telem_mismatch cs.
